@@ -496,6 +496,9 @@ def execute(scenario: dict, env: Any, *, prop: str) -> dict:
                 raise ArithmeticError("non-finite training matrix")
             if any(m["arr"].shape[0] == 0 for _, m in c0):
                 raise ArithmeticError("every training row was dropped")
+            if any(m["arr"].shape[1] == 0 for _, m in c0):
+                # e.g. a NaN centering constraint recorded from one null: every row dropped, no levels, no columns
+                raise ArithmeticError("a part of the training matrix has no columns")
         except Exception as e:  # degenerate fit: outside the property's quantifier
             bump(stats, "extra", "degenerate_fit")
             bump(stats, "extra", "degenerate_fit:" + type(e).__name__)
